@@ -48,6 +48,25 @@ func States() (map[int64]string, string) {
 	return out, string(buf)
 }
 
+// Quiescent reports whether no goroutine of the process could make progress on its own: every goroutine other than the
+// caller is parked in a wait that only another goroutine can end (locks, channels, conds, wait groups) or is one of the
+// runtime's idle helpers. Sleeping, runnable, running goroutines and goroutines in system calls or network waits are
+// progress that may still come.
+func Quiescent(states map[int64]string, self int64) bool {
+	for id, st := range states {
+		if id == self {
+			continue
+		}
+		switch {
+		case isLockWait(st), strings.HasPrefix(st, "chan "), strings.HasPrefix(st, "select"), strings.HasPrefix(st, "sync."):
+		case strings.Contains(st, "idle"), strings.HasPrefix(st, "GC "), st == "finalizer wait", st == "force gc (idle)", st == "debug call", st == "cleanup wait":
+		default:
+			return false
+		}
+	}
+	return true
+}
+
 func isLockWait(st string) bool {
 	return st == "sync.RWMutex.RLock" || st == "sync.RWMutex.Lock" || st == "sync.Mutex.Lock" || st == "semacquire"
 }
